@@ -428,11 +428,18 @@ func buildField(ww *conversionVisitor, node sourcewalk.FieldNode) (*descriptorpb
 
 		if st.Float.ListRules != nil {
 			ww.file.ensureImport(j5ListAnnotationsImport)
-			proto.SetExtension(desc.Options, list_j5pb.E_Field, &list_j5pb.FieldConstraint{
+			constraint := &list_j5pb.FieldConstraint{
 				Type: &list_j5pb.FieldConstraint_Float{
 					Float: st.Float.ListRules,
 				},
-			})
+			}
+			if st.Float.Format == schema_j5pb.FloatField_FORMAT_FLOAT64 {
+				// a double field carries its list rules under 'double', where the reader looks for them
+				constraint.Type = &list_j5pb.FieldConstraint_Double{
+					Double: st.Float.ListRules,
+				}
+			}
+			proto.SetExtension(desc.Options, list_j5pb.E_Field, constraint)
 		}
 
 		return desc, nil
@@ -773,6 +780,15 @@ func buildField(ww *conversionVisitor, node sourcewalk.FieldNode) (*descriptorpb
 				},
 			}
 			proto.SetExtension(desc.Options, validate.E_Field, rules)
+		}
+
+		if st.Timestamp.ListRules != nil {
+			ww.file.ensureImport(j5ListAnnotationsImport)
+			proto.SetExtension(desc.Options, list_j5pb.E_Field, &list_j5pb.FieldConstraint{
+				Type: &list_j5pb.FieldConstraint_Timestamp{
+					Timestamp: st.Timestamp.ListRules,
+				},
+			})
 		}
 
 		return desc, nil
